@@ -39,7 +39,7 @@ theorem mem_setIns_of {l : List Nat} {x y : Nat} (h : y ∈ l ∨ y = x) : y ∈
     · exact List.mem_append_left _ h
     · rw [h]; simp
 
-theorem mem_foldl_setIns_of_mem {l f : List Nat} {x : Nat} (h : x ∈ l ∨ x ∈ f) : x ∈ l.foldl setIns f := by
+theorem mem_foldl_setIns_of_mem_r {l f : List Nat} {x : Nat} (h : x ∈ l ∨ x ∈ f) : x ∈ l.foldl setIns f := by
   induction l generalizing f with
   | nil =>
     rcases h with h | h
@@ -123,7 +123,7 @@ theorem uncompute_exact {r : List Nat} {s s' : CState} (h : uncompute.run s = .o
     obtain ⟨u, s3, hm, h3⟩ := run_bind_ok.mp h2
     obtain ⟨rfl, rfl⟩ := run_pure_ok.mp h3
     have := modQC_run hm; subst this
-    exact ⟨extra, e1, e2, fun m hmem => mem_foldl_setIns_of_mem (Or.inl hmem)⟩
+    exact ⟨extra, e1, e2, fun m hmem => mem_foldl_setIns_of_mem_r (Or.inl hmem)⟩
 
 theorem uncomputeAllLoop_skip {keep alreadyFree : List Nat} {off : Nat} :
     ∀ (gs : List AGate) {u : Unit} {s s' : CState},
